@@ -217,6 +217,8 @@ def drive_running(code, kind, seed, probe_cb, run=None):
                     end = ("return", None)
     except ENDS as ex:
         end = ("exc", type(ex).__name__)
+        if getattr(run, "keep_traceback", False):
+            run.tb = ex.__traceback__
     except LoopLimit:
         end = ("limit",)
     except RuntimeError as ex:
